@@ -1,5 +1,5 @@
 """C25 - host state changes keep a single reconnector and notify listeners once (spec/Hosts.tla)."""
-from checks import _hosts
+from checks import _hosts, _driver
 
 META = {
     "property_id": "C25",
@@ -28,7 +28,10 @@ META = {
 
 def run(ctx):
     _hosts.run(ctx, "C25")
+    _driver.system_tier(ctx, "C25")     # thorough: whole-driver runs against spec/Driver.tla, rejections owned by C25
 
 
 def replay(ctx, obj):
+    if _driver.is_system_replay(obj):
+        return _driver.replay_system(ctx, obj)
     _hosts.replay(ctx, "C25", obj)
